@@ -1750,3 +1750,146 @@ def c10_histories(ctx):
 
 
 P.PROPS["C10"]["streams"].append(c10_histories)
+
+
+# ---------------------------------------------------------------- round-3 strengthening
+
+def intended_pickles(pid, proj):
+    """pickles of a generated document: the implementation parses the text and compiles; the model compiles the AST the
+    generator *intended* (it never saw the parser) -- so a transition of the generated parser that builds another tree
+    shows up here even though the regenerated model follows parser.py"""
+    def run(ctx):
+        docs = S.gen_sources(S.n_for(300, 5000), salt=pid + "/intended-pickles")
+        impl = impl_mod()
+        def idc_of(ast):
+            return 1 + max([int(x) for x in collect(ast, "id")] or [-1])
+        mres = run_model([("compile", ["u.feature", want, idc_of(want)]) for _, want in docs])
+        items = list(zip(docs, mres))
+
+        def check(it):
+            (src, want), mr = it
+            ev = impl.events(False, False, True, False, [["u.feature", src]])
+            if "envelopes" not in ev:
+                return {"what": "stream API failed on a generated document: %r" % (ev,)}
+            got = [proj(e["pickle"]) for e in ev["envelopes"] if "pickle" in e]
+            if any("parseError" in e for e in ev["envelopes"]):
+                return {"what": "generated well-formed document rejected"}
+            if "pickles" not in mr:
+                return {"what": "model could not compile the intended AST: %r" % (mr,)}
+            exp = [proj(p) for p in mr["pickles"]]
+            if canon(got) != canon(exp):
+                return {"what": "pickles of the parsed text differ from the pickles of the intended AST", "impl": got[:6], "intended": exp[:6]}
+            return None
+        return oracle("intended-pickles", items, check, describe=lambda it: it[0][0])
+    run.__name__ = "intended_pickles_" + pid
+    return run
+
+
+for _pid, _pj in (("C06", pk_sources), ("C07", lambda p: [pk_steps(p), pk_steps_plain(p)]), ("C08", pk_tags), ("C09", pk_interp), ("C10", pk_types), ("C11", pk_ids)):
+    P.PROPS[_pid]["streams"].append(intended_pickles(_pid, _pj))
+
+
+def c03_docstring_escapes(ctx):
+    """exact text: a doc string turns back only the escaped form of its own delimiter; the other one's stays as written"""
+    srcs = []
+    for d, o in (('"""', "```"), ("```", '"""')):
+        esc = lambda x: "\\" + "\\".join(x)
+        for body in ([esc(o)], [esc(d)], ["a " + esc(o) + " b " + esc(d)], [esc(o) + esc(o), "", esc(d)], ["\\" + o], [o]):
+            srcs.append("Feature: f\n  Scenario: s\n    Given g\n      " + d + "\n" + "".join("      " + b + "\n" for b in body) + "      " + d + "\n")
+            srcs.append("Feature: f\n  description " + esc(o) + " " + esc(d) + "\n  Background:\n    Given g\n" + d + "md\n" + "".join(b + "\n" for b in body) + d + "\n    And h\n")
+    return e2e("doc-string-escapes", srcs, P.p_ast_text, nontrivial=nt_accepted("ast"), exhaustive=True)
+
+
+P.PROPS["C03"]["streams"].append(c03_docstring_escapes)
+
+
+def c09_empty_header(ctx):
+    """every header cell is taken literally -- the empty one too: '<>' is its placeholder"""
+    reqs = []
+    for t in ("<>", "a<>b<>", "<><x>", "<<>>", "x", "<> <b>"):
+        reqs.append(("interpolate", [t, [""], ["V"]]))
+        reqs.append(("interpolate", [t, ["", "b"], ["V", "W"]]))
+        reqs.append(("interpolate", [t, ["b", ""], ["<>", "W"]]))
+        reqs.append(("interpolate", [t, ["x", "", "b"], ["1", "", "3"]]))
+    return differential("empty-header", reqs, nontrivial=lambda q, r: tuple(map(str, q[1])), classify=lambda q, r: "empty-header", exhaustive=True)
+
+
+P.PROPS["C09"]["streams"].append(c09_empty_header)
+
+
+def c15_prefix_keywords(ctx):
+    """a matcher that has seen a short step keyword still reads the longer keyword it prefixes (and the other way round)"""
+    D = S.dialects()
+    reqs = []
+    for code in sorted(D):
+        d = D[code]
+        steps = []
+        for role in ("given", "when", "then", "and", "but"):
+            steps += [k for k in d[role] if k not in steps]
+        pairs = [(a, b) for a in steps for b in steps if a != b and b.startswith(a)]
+        if not pairs:
+            continue
+        head = d["feature"][0] + ": f\n  " + d["scenario"][0] + ": s\n"
+        for a, b in pairs[:6]:
+            rest = b[len(a):]
+            d1 = head + "    " + a + "x\n"
+            d2 = head + "    " + b + "y\n    " + a + "z\n"
+            for hist in ([d1, d2], [d2, d1, d2], [d1, d1, d2]):
+                reqs.append(("parse_history", [code, [[False, h] for h in hist]]))
+            reqs.append(("parse_history", ["en", [[False, "# language: %s\n" % code + h] for h in (d1, d2, d1)]]))
+
+    def proj(res, req=None):
+        return [P.p_keywords(x) for x in res] if isinstance(res, list) else res
+    return differential("prefix-keywords-on-a-reused-matcher", reqs, proj=proj, nontrivial=lambda q, x: canon(q[1])[:200], classify=lambda q, x: q[1][0])
+
+
+def o_c15_matcher_argument(ctx):
+    """Parser.parse with and without a matcher argument on one Parser: the matcher of an earlier call is not remembered"""
+    impl = impl_mod()
+    docs = {"en": "Feature: f\n  Scenario: s\n    Given g\n", "fr": "Fonctionnalité: f\n  Scénario: s\n    Soit g\n",
+            "hdr": "# language: fr\nFonctionnalité: f\n  Scénario: s\n    Soit g\n", "bad": "Feature: f\n  oops\n  Scenario: s\n    nope\n"}
+    modes = [None, "en", "fr", "no"]     # None = no matcher argument
+    items = [(list(h), tgt) for n in (1, 2) for h in itertools.product([(m, d) for m in modes for d in docs], repeat=n) for tgt in [(m, d) for m in (None, "en", "fr") for d in docs]]
+    r = rng("c15m")
+    items = r.sample(items, min(len(items), S.n_for(600, 6000)))
+
+    def one(parser, mode, doc):
+        try:
+            if mode is None:
+                return {"ok": parser.parse(impl.source_arg(docs[doc]))}
+            return {"ok": parser.parse(impl.source_arg(docs[doc]), impl.TokenMatcher(mode))}
+        except impl.CompositeParserException as e:
+            return {"errors": [impl.err_json(x) for x in e.errors]}
+        except impl.ParserException as e:
+            return {"error": impl.err_json(e)}
+
+    def check(it):
+        hist, (mode, doc) = it
+        g = impl.CountingIdGen()
+        p = impl.Parser(impl.AstBuilder(g))
+        for m, d in hist:
+            one(p, m, d)
+        off = g.n
+        got = shift_ids(copy.deepcopy(one(p, mode, doc)), off)
+        want = copy.deepcopy(one(impl.Parser(impl.AstBuilder(impl.CountingIdGen())), mode, doc))
+        if canon(got) != canon(want):
+            return {"what": "result on a used Parser differs from a fresh Parser (same arguments)", "used": got, "fresh": want}
+        return None
+    return oracle("matcher-argument-histories", items, check, describe=lambda it: [it[0], it[1]])
+
+
+P.PROPS["C15"]["streams"] += [c15_prefix_keywords, o_c15_matcher_argument]
+
+
+def c18_long_lines(ctx):
+    """one token per physical line however long the line is"""
+    srcs = []
+    for n in ((8191, 8192, 8200) if S.n_for(0, 1) == 0 else (8190, 8191, 8192, 8193, 16384, 20000)):
+        srcs.append("Feature: f\n  Scenario: s\n    Given g\n      | " + "x" * n + " | b |\n      | c | d |\n")
+        srcs.append("Feature: f\n  " + "d" * n + "\n  Scenario: s\n    Given g\n      \"\"\"\n      " + "y" * n + "\n      \"\"\"\n")
+        srcs.append("Feature: f\n  Scenario: " + "n" * n + "\n    Given g " + "z" * n + "\n  @t" + "a" * n + "\n  Scenario: u\n")
+    reqs = [("tokens", ["en", s]) for s in srcs]
+    return differential("long-lines", reqs, nontrivial=lambda q, r: q[1][1][:200] if "ok" in r else None, classify=lambda q, r: outcome(r), exhaustive=True)
+
+
+P.PROPS["C18"]["streams"].append(c18_long_lines)
